@@ -369,6 +369,19 @@ func evalCase(c tcase, text string) (key, what string, bad bool) {
 		if c.Line >= len(lines) || c.Col >= len(lines[c.Line]) || len(c.Digit) != 1 || lines[c.Line][c.Col] == c.Digit[0] {
 			return "", "not applicable", false
 		}
+		// a recorded case names a line of a generated file by number: when the generator has changed since, that
+		// line may be another record; the case applies only if the column still belongs to the protected field it names
+		if c.Field != "" {
+			in := false
+			for _, fd := range protected(lines)[c.Line] {
+				if fd.name == c.Field && c.Col >= fd.lo && c.Col < fd.hi {
+					in = true
+				}
+			}
+			if !in {
+				return "", "not applicable", false
+			}
+		}
 		if _, ok := accepted(tamperAt(lines, c.Line, c.Col, c.Digit[0])); ok {
 			return "tamper:" + c.Field, fmt.Sprintf("line %d column %d replaced by %s is accepted (line %q)", c.Line+1, c.Col+1, c.Digit, lines[c.Line]), true
 		}
